@@ -259,6 +259,10 @@ def handleObs (s : St) (ws : List String) : Except (String × String) St := do
     match s.op with
     | "udp" :: _ => pure { s with tags := "bindfail" :: s.tags }
     | "acceptor" :: _ => pure { s with tags := "bindfail" :: s.tags }
+    | "connectvia" :: _ =>
+      -- reaching a listener through another local address may be refused (e.g. IPV6_V6ONLY): not a violation
+      if cls = "nonstd" then throw ("spec", "non-standard exception from " ++ " ".intercalate s.op)
+      else pure { s.dropOp with tags := "connectvia.refused" :: s.tags }
     | _ =>
       if cls = "nonstd" then throw ("spec", "non-standard exception from " ++ " ".intercalate s.op)
       else pure (s.note (s!"unexpected exception {cls} from " ++ " ".intercalate s.op))
